@@ -5,7 +5,7 @@
    named [old_] definitions. *)
 From Coq Require Import List ZArith NArith Bool String.
 Import ListNotations.
-From SygmaV Require Import Model.C20 Proofs.C20 Model.C20Num Proofs.C20Num.
+From SygmaV Require Import Model.C20 Proofs.C20 Model.C20Num Proofs.C20Num Model.C20Hist Proofs.C20Hist Model.C20Elapsed Proofs.C20Elapsed.
 Local Open Scope Z_scope.
 
 (* ---- ports ---------------------------------------------------------------------------------- *)
@@ -353,6 +353,28 @@ Theorem C20_merge_empty_local_loses : forall local shared k v w,
 Proof. exact merge_empty_local_loses. Qed.
 Print Assumptions C20_merge_empty_local_loses.
 
+(* HISTORIES of loads against one shared configuration (the caller's maps, handed to the loaders again
+   and again with a local document each): the specification is that of one load for EVERY load, against
+   the shared document as written; the model - every load is [process] on its own documents, nothing is
+   carried over - passes for every history of well-formed documents, and what it returns for a document
+   does not depend on the history around it. *)
+Theorem C20_loadhist_every_load : forall shared h, merge_hist_ok shared h = true ->
+  forall l impl, In (l, impl) h -> merge_ok l shared impl = true.
+Proof. exact merge_hist_ok_every_load. Qed.
+Print Assumptions C20_loadhist_every_load.
+
+Theorem C20_loadhist_model_ok : forall shared docs,
+  forallb (fun l => wf_merge l shared) docs = true ->
+  merge_hist_ok shared (combine docs (hist_model shared docs)) = true.
+Proof. exact merge_hist_ok_model. Qed.
+Print Assumptions C20_loadhist_model_ok.
+
+Theorem C20_loadhist_model_pure : forall shared before after l,
+  hist_model shared (before ++ l :: after)
+  = hist_model shared before ++ process l shared :: hist_model shared after.
+Proof. exact hist_model_pure. Qed.
+Print Assumptions C20_loadhist_model_pure.
+
 Theorem C20_merge_missing_chain_errors : forall locals shared c i,
   In c locals -> id_of c = Some i -> find_chain i shared = None -> process locals shared = None.
 Proof. exact process_missing_chain_errors. Qed.
@@ -574,6 +596,30 @@ Proof. exact retries_bad_number_rejected. Qed.
 Print Assumptions C20_retries_bad_number_rejected.
 
 (* before the repair (known finding C20-uploader-weak-number-wrap): maxRetries -1 -> 2^64-1, 1.5 -> 1, 2^64 -> 2^63 *)
+(* uploaderConfig.maxElapsedTime (a time.Duration decoded by the same viper.Unmarshal): the model passes
+   the judge for every written value, an accepted number / duration text is held exactly (0: the
+   default), a number outside int64 and a fraction of a nanosecond do not load *)
+Theorem C20_elapsed_ok_model : forall w, elapsed_wf w = true -> elapsed_ok w (model_elapsed w) = true.
+Proof. exact elapsed_ok_model. Qed.
+Print Assumptions C20_elapsed_ok_model.
+
+Theorem C20_elapsed_ok_sound_num : forall z h v, elapsed_ok (WNum z h) (Some v) = true ->
+  v = given z h \/ (given z h = 0 /\ v = elapsed_default).
+Proof. exact elapsed_ok_sound_num. Qed.
+Print Assumptions C20_elapsed_ok_sound_num.
+
+Theorem C20_elapsed_ok_sound_text : forall s n u v, duration_reading s = Some (n, u) ->
+  elapsed_ok (WStr s) (Some v) = true ->
+  v = n * unit_ns u \/ (n * unit_ns u = 0 /\ v = elapsed_default).
+Proof. exact elapsed_ok_sound_text. Qed.
+Print Assumptions C20_elapsed_ok_sound_text.
+
+Theorem C20_elapsed_bad_number_rejected : forall z h n d,
+  (given z h < min_i64 \/ two63 <= given z h -> model_elapsed (WNum z h) = None) /\
+  model_elapsed (WFrac n d) = None /\ elapsed_ok (WFrac n d) (Some z) = false.
+Proof. exact elapsed_bad_number_rejected. Qed.
+Print Assumptions C20_elapsed_bad_number_rejected.
+
 Theorem C20_old_retries_wrap_refuted :
   old_model_retries (WNum (-1) AsFloat) = Some (max_u64, 1%positive) /\
   retries_ok (WNum (-1) AsFloat) (old_model_retries (WNum (-1) AsFloat)) = false /\
@@ -710,6 +756,40 @@ Example C20_nonvacuous :
   strs_ok [(Plain, Some "dGVzdGtleQ==")] (Some ["dGVzdGtleQ"]) = false /\
   parse_level "debug" = Some "debug" /\ parse_level "DEBUG" = None.
 Proof. vm_compute. repeat split. Qed.
+
+Example C20_nonvacuous_elapsed :
+  model_elapsed (WNum 300000 AsFloat) = Some 300000 /\ model_elapsed (WNum 0 AsFloat) = Some 300000 /\
+  model_elapsed (WNum (-1) AsFloat) = Some (-1) /\ model_elapsed (WNum two63 AsFloat) = None /\
+  model_elapsed (WNum min_i64 AsFloat) = Some min_i64 /\ model_elapsed (WFrac 3 2) = None /\
+  model_elapsed (WStr "5m") = Some 300000000000 /\ model_elapsed (WStr "300000") = None /\
+  model_elapsed (WStr "0s") = Some 300000 /\ model_elapsed WAbsent = Some 300000 /\
+  elapsed_wf (WNum 7 AsFloat) = true /\
+  elapsed_ok (WNum 3 AsFloat) (Some 1) = false /\ elapsed_ok (WNum two64 AsFloat) (Some min_i64) = false /\
+  elapsed_ok (WStr "5m") (Some 5) = false.
+Proof. exact elapsed_examples. Qed.
+
+(* histories of loads: the hypothesis of the model theorem is satisfiable, the model of two loads against
+   one shared entry, and what the judge rejects - a second load that returns a setting only the FIRST
+   local document wrote, and two local entries of one domain that come back as one *)
+Example C20_nonvacuous_loadhist :
+  let shared := [[("id", JNum 1); ("bridge", JStr "0xB")]] in
+  let l1 := [[("id", JNum 1); ("type", JStr "evm"); ("name", JStr "first"); ("startBlock", JNum 100)]] in
+  let l2 := [[("id", JNum 1); ("type", JStr "evm"); ("name", JStr "second")]] in
+  forallb (fun l => wf_merge l shared) [l1; l2] = true /\
+  hist_model shared [l1; l2]
+  = [Some [[("id", JNum 1); ("type", JStr "evm"); ("name", JStr "first"); ("startBlock", JNum 100); ("bridge", JStr "0xB")]];
+     Some [[("id", JNum 1); ("type", JStr "evm"); ("name", JStr "second"); ("bridge", JStr "0xB")]]] /\
+  merge_hist_ok shared (combine [l1; l2] (hist_model shared [l1; l2])) = true /\
+  merge_hist_ok shared
+    [(l1, Some [[("id", JNum 1); ("type", JStr "evm"); ("name", JStr "first"); ("startBlock", JNum 100); ("bridge", JStr "0xB")]]);
+     (l2, Some [[("id", JNum 1); ("type", JStr "evm"); ("name", JStr "second"); ("startBlock", JNum 100); ("bridge", JStr "0xB")]])]
+  = false /\
+  merge_hist_ok shared
+    [([[("id", JNum 1); ("type", JStr "evm"); ("name", JStr "primary")]; [("id", JNum 1); ("type", JStr "evm"); ("name", JStr "backup")]],
+      Some [[("id", JNum 1); ("type", JStr "evm"); ("name", JStr "backup"); ("bridge", JStr "0xB")];
+            [("id", JNum 1); ("type", JStr "evm"); ("name", JStr "backup"); ("bridge", JStr "0xB")]])]
+  = false.
+Proof. cbv zeta. repeat split; vm_compute; reflexivity. Qed.
 
 (* key spelling: the hypotheses (doc_wf, a single id entry) are satisfiable; one setting under several
    spellings *)
